@@ -322,7 +322,7 @@ structure DTx where
   votes : List (Nat × Vote)   -- `votes: HashMap<ShardId, PrepareVote>`
   startedAt : Nat
   timeout : Nat
-  deriving Repr
+  deriving DecidableEq, Repr
 
 def DTx.hasVote (t : DTx) (sh : Nat) : Bool := t.votes.any (fun e => e.1 == sh)
 def DTx.allVoted (t : DTx) : Bool := t.participants.all (fun sh => t.hasVote sh)
@@ -349,7 +349,7 @@ structure Coordinator where
   maxConcurrent : Nat
   prepareTimeout : Nat
   nextTx : Nat                                         -- stands for `generate_tx_id()` (fresh ids)
-  deriving Repr
+  deriving DecidableEq, Repr
 
 def findTx : List DTx → Nat → Option DTx
   | [], _ => none
